@@ -1047,7 +1047,7 @@ Proof.
       rewrite Hk in Hk0. injection Hk0 as <-. exact Hok'.
     + intros Hne. eapply front_mono; [apply H6, Hne|].
       intros c' k0 Hk0. rewrite nth_upd_plain, Hk0. cbn. eexists; split; [reflexivity|].
-      unfold entry_after. destruct (Nat.eqb c c'); destruct (Nat.eqb i c'); cbn; lia.
+      unfold entry_after. destruct (Nat.eqb i c'); cbn; lia.
 Qed.
 
 Lemma sync_inv_request src0 fuel answers : forall c i c' r,
@@ -1109,4 +1109,99 @@ Proof.
   rewrite Hs. apply firstn_all2; auto.
 Qed.
 
+(* ------------------------------------------------------------------------------------------ *)
+(* a source answer wakes everybody: also for the executor's poll (clear_woken, then poll_next)  *)
+
+Lemma Inv_wake_all_step script n s c s0 : Inv script n s -> s0 = s \/ s0 = clear_woken c s ->
+  n_some s0 + n_none s0 < n_some (fst (poll_next s0 c)) + n_none (fst (poll_next s0 c)) ->
+  pending_wakes (fst (poll_next s0 c)) = [] /\
+  forall c' k', nth_error (cons (fst (poll_next s0 c))) c' = Some k' -> blocked k' = true -> woken k' = true.
+Proof.
+  intros HI Hs0 Hlt.
+  assert (HW' : wake_inv None (fst (poll_next s0 c))).
+  { destruct Hs0 as [->| ->].
+    - apply (Inv_poll_next _ _ _ c HI).
+    - apply (Inv_step _ _ _ (Poll c) HI). }
+  assert (Hpw : pending_wakes (fst (poll_next s0 c)) = []).
+  { revert Hlt. destruct (nth_error (cons s0) c) as [k|] eqn:Hk; [|rewrite poll_next_nohandle; auto; cbn [fst]; lia].
+    rewrite (poll_next_eq _ _ _ Hk).
+    destruct (Nat.compare (curr k) (length (items s0))); [destruct (src s0) as [|[x|] r]| |]; simpl_st; auto; lia. }
+  split; auto. intros c' k' Hk' Hb. destruct (woken k') eqn:Hw; auto.
+  destruct (wi_blocked _ _ HW' _ _ Hk') as (Hin & _); auto; [discriminate|]. rewrite Hpw in Hin. destruct Hin.
+Qed.
+
+(* ------------------------------------------------------------------------------------------ *)
+(* the request loops of bundles.rs only use handle-level transitions                           *)
+
+Fixpoint poll_n (m : nat) (s : astate) (c : nat) : astate :=
+  match m with
+  | O => s
+  | S m' => poll_n m' (fst (poll_next s c)) c
+  end.
+
+Lemma request_poll_iter fuel answers : forall s c s' p,
+  request_poll fuel answers s c = Done (s', p) -> exists m, 1 <= m <= fuel /\ s' = poll_n m s c.
+Proof.
+  induction fuel as [|f IH]; intros s c s' p; cbn; [discriminate|].
+  destruct (poll_next s c) as [s1 p1] eqn:E.
+  assert (E1 : s1 = fst (poll_next s c)) by (rewrite E; reflexivity).
+  destruct p1 as [[x|]|].
+  - destruct (answers x).
+    + intros [= <- <-]. exists 1. split; [lia|]. cbn. auto.
+    + intros H. destruct (IH _ _ _ _ H) as (m & Hm & ->). exists (S m). split; [lia|]. cbn. rewrite <- E1. reflexivity.
+  - intros [= <- <-]. exists 1. split; [lia|]. cbn. auto.
+  - intros [= <- <-]. exists 1. split; [lia|]. cbn. auto.
+Qed.
+
+Fixpoint next_n (m : nat) (c : cache) (i : nat) : cache :=
+  match m with
+  | O => c
+  | S m' => next_n m' (cache_step c i) i
+  end.
+
+Lemma request_sync_iter fuel answers : forall c i c' r,
+  request_sync fuel answers c i = Done (c', r) -> exists m, 1 <= m <= fuel /\ c' = next_n m c i.
+Proof.
+  induction fuel as [|f IH]; intros c i c' r; cbn; [discriminate|].
+  destruct (cache_iter_next c i) as [c1 r1] eqn:E.
+  assert (E1 : c1 = cache_step c i) by (unfold cache_step; rewrite E; reflexivity).
+  destruct r1 as [x|].
+  - destruct (answers x).
+    + intros [= <- <-]. exists 1. split; [lia|]. cbn. auto.
+    + intros H. destruct (IH _ _ _ _ H) as (m & Hm & ->). exists (S m). split; [lia|]. cbn. rewrite <- E1. reflexivity.
+  - intros [= <- <-]. exists 1. split; [lia|]. cbn. auto.
+Qed.
+
+Lemma sumf_fin_ind_zero (l : list consumer) :
+  (forall c k, nth_error l c = Some k -> fin k = false) -> sumf fin_ind l = 0.
+Proof.
+  induction l as [|x r IH]; intros H; cbn; auto.
+  rewrite (fin_ind_false x (H 0 x eq_refl)). unfold sumf in IH. rewrite IH; auto.
+  intros c k Hk. apply (H (S c)). exact Hk.
+Qed.
+
+Lemma Inv_lazy_depth script n s : Inv script n s ->
+  (forall c k, nth_error (cons s) c = Some k -> fin k = false) -> items s <> [] ->
+  exists c k, nth_error (cons s) c = Some k /\ n_some s + n_none s = curr k /\
+              forall c' k', nth_error (cons s) c' = Some k' -> curr k' <= curr k.
+Proof.
+  intros (HD & HW & HL) Hnf Hne.
+  destruct (di_front _ _ HD Hne) as (c & k & Hk & Hle).
+  assert (Hcur : forall c' k', nth_error (cons s) c' = Some k' -> curr k' <= length (items s)).
+  { intros c' k' Hk'. destruct (di_cons _ _ HD _ _ Hk') as [H1 _]. destruct (H1 (Hnf _ _ Hk')). auto. }
+  exists c, k. split; auto. pose proof (Hcur _ _ Hk). split.
+  - rewrite (di_some _ _ HD), (di_none _ _ HD), (sumf_fin_ind_zero _ Hnf). lia.
+  - intros c' k' Hk'. specialize (Hcur _ _ Hk'). lia.
+Qed.
+
 End Proofs.
+
+Arguments data_inv {A}.
+Arguments wake_inv {A}.
+Arguments rescuer {A}.
+Arguments Inv {A}.
+Arguments reachable {A}.
+Arguments sync_inv {A}.
+Arguments sreachable {A}.
+Arguments poll_n {A}.
+Arguments next_n {A}.
